@@ -39,9 +39,9 @@ cp "$PATCH" "$D/patch.diff"; cp "$DEMO" "$D/demo_test.go.txt"; cp "$SRC/mutant$K
 git diff > "$S/full.diff"
 RESULTS=""
 for P in "$@"; do
-  mkdir -p "$S/vd"; cp /verif/KNOWN_FINDINGS.txt "$S/vd/"
+  mkdir -p "$S/vd" "$S/verif"; [ -f "$S/verif/check.sh" ] || git -C /verif archive HEAD | tar -x -C "$S/verif"; cp /verif/KNOWN_FINDINGS.txt "$S/vd/"
   echo "== check $P quick against the mutant"
-  VERIF_REPO="$S/repo" VERIF_DIR="$S/vd" timeout 1800 /verif/check.sh "$P" quick > "$S/check_$P.log" 2>&1; RC=$?
+  VERIF_REPO="$S/repo" VERIF_DIR="$S/vd" timeout 1800 "$S/verif/check.sh" "$P" quick > "$S/check_$P.log" 2>&1; RC=$?
   grep -E "^ +[0-9]+ x |^C[0-9]+ |INCONCL|BUILD" "$S/check_$P.log" | head -8 | cut -c1-160
   RESULTS="$RESULTS $P:exit=$RC"
   grep -E "^ +[0-9]+ x " "$S/check_$P.log" | head -5 > "$D/caught_by_$P.txt"
